@@ -28,7 +28,8 @@ type c09Op struct {
 	Tag string `json:"tag"` // choice shape / member kind, used in signatures
 	Doc string `json:"doc"`
 	// Strat: "" = upsert; "insert" / "update": only the invariant and the read are checked, and the
-	// strategy may refuse the edit (conflict / not-found)
+	// strategy may refuse the edit (conflict / not-found); "set": Doc names one leaf, the edit is
+	// Find(path to the leaf).SetValue(value), a no-op when the node holding the leaf is not there
 	Strat string `json:"strategy,omitempty"`
 }
 
@@ -129,6 +130,11 @@ var c09Alphabet = []c09Op{
 	{Tag: "update/leaf", Doc: `{"a2":7}`, Strat: "update"},
 	{Tag: "update/shorthand", Doc: `{"s":"u"}`, Strat: "update"},
 	{Tag: "insert/nested", Doc: `{"w":{"j1":"i"}}`, Strat: "insert"},
+	{Tag: "set/leaf", Doc: `{"a1":"s"}`, Strat: "set"},
+	{Tag: "set/leaf-after-container", Doc: `{"b2":"s"}`, Strat: "set"},
+	{Tag: "set/shorthand", Doc: `{"s":"t"}`, Strat: "set"},
+	{Tag: "set/nested-inner-case", Doc: `{"w":{"j1":"s"}}`, Strat: "set"},
+	{Tag: "set/nested-outer-case", Doc: `{"w":{"p1":"s"}}`, Strat: "set"},
 	{"in-list/two-items-same-case", `{"e":[{"k":"a","x1":"c"},{"k":"b","x1":"c"}]}`, ""},
 	{"in-list/two-items-same-case", `{"e":[{"k":"a","y1":"d"},{"k":"b","y1":"d"}]}`, ""},
 	{"in-list/two-items-other-cases", `{"e":[{"k":"a","x1":"e"},{"k":"b","y1":"e"}]}`, ""},
@@ -218,8 +224,9 @@ func c09Step(c c09Case, inst *c09Inst, op c09Op) []eng.StepViol {
 	if err != nil {
 		panic(err)
 	}
-	desc := fmt.Sprintf("%s %s on %s", map[string]string{"": "upsert", "insert": "insert", "update": "update"}[op.Strat], op.Doc, before)
+	desc := fmt.Sprintf("%s %s on %s", map[string]string{"": "upsert", "insert": "insert", "update": "update", "set": "Find+SetValue"}[op.Strat], op.Doc, before)
 	var uerr error
+	setSkipped := false
 	fr, msg, pan := eng.Recover(func() {
 		var src node.Node
 		if c.Source == "json" {
@@ -234,6 +241,30 @@ func c09Step(c c09Case, inst *c09Inst, op c09Op) []eng.StepViol {
 			src = store.ContainerNode(s.Clone())
 		}
 		switch op.Strat {
+		case "set":
+			var doc interface{}
+			if err := json.Unmarshal([]byte(op.Doc), &doc); err != nil {
+				panic(err)
+			}
+			var path []string
+			for {
+				obj, isObj := doc.(map[string]interface{})
+				if !isObj {
+					break
+				}
+				for k, v := range obj {
+					path = append(path, k)
+					doc = v
+				}
+			}
+			var sel *node.Selection
+			if sel, uerr = env.b.Root().Find(strings.Join(path, "/")); uerr == nil {
+				if sel == nil {
+					setSkipped = true
+				} else {
+					uerr = sel.SetValue(doc)
+				}
+			}
 		case "insert":
 			uerr = env.b.Root().InsertFrom(src)
 		case "update":
@@ -253,9 +284,11 @@ func c09Step(c c09Case, inst *c09Inst, op c09Op) []eng.StepViol {
 	if msg := exclusive(m.DataDefinitions(), got, ""); msg != "" {
 		return []eng.StepViol{{Sig: site + "/two-cases-hold-data", What: fmt.Sprintf("%s: %s; store now %s", desc, msg, got)}}
 	}
-	if op.Strat == "" {
+	if op.Strat == "" || op.Strat == "set" {
 		want := before.Clone()
-		modelEdit(m, entryPoint{}, model.Upsert, s, want, env.st.MapLists())
+		if !setSkipped {
+			modelEdit(m, entryPoint{}, model.Upsert, s, want, env.st.MapLists())
+		}
 		if kd, w := model.Diff(m.DataDefinitions(), want, got, env.canonOpts(), ""); kd != "" {
 			return []eng.StepViol{{Sig: site + "/wrong-result/" + kd, What: fmt.Sprintf("%s: %s; want %s got %s", desc, w, want, got)}}
 		}
